@@ -168,10 +168,14 @@ pub fn check_opreturn(coin: Coin, range: &[(u64, &Block)], out: &RunOut) -> Resu
 
 /// simplestats: integers exact, means/shares within half a unit of the last printed decimal.
 pub fn check_stats(coin: Coin, range: &[(u64, &Block)], out: &RunOut) -> Result<(), String> {
+    check_stats_with_open(coin, range, out, &|_| false)
+}
+
+pub fn check_stats_with_open(coin: Coin, range: &[(u64, &Block)], out: &RunOut, open: &dyn Fn(&[u8]) -> bool) -> Result<(), String> {
     expect_ok(out)?;
     let so = split_stdout(&out.stdout_text());
     let r = parse_stats(&so)?;
-    let m = render::stats(coin, range);
+    let m = render::stats_with_open(coin, range, open);
     let ints: [(&str, u128, u128); 6] = [
         ("valid blocks", m.blocks as u128, r.blocks as u128),
         ("total transactions", m.txs as u128, r.txs as u128),
@@ -231,20 +235,10 @@ pub fn check_stats(coin: Coin, range: &[(u64, &Block)], out: &RunOut) -> Result<
         if !render::close_enough(*share, (*cnt as u128) * 100, m.outputs as u128, 1.0, 2) {
             return Err(format!("simplestats type {}: share {}% does not match {}/{}", label, share, cnt, m.outputs));
         }
-        let must_first = ms.first.map(|f| (f, ms.first_must_ord.unwrap()));
-        let may_first = ms.first_may.map(|f| (f, ms.first_may_ord.unwrap()));
-        let ok = match (must_first, may_first) {
-            (Some((f, _)), None) => (*h, *t) == f,
-            (Some((f, fo)), Some((g, go))) => {
-                if fo < go {
-                    (*h, *t) == f
-                } else {
-                    (*h, *t) == f || (*h, *t) == g
-                }
-            }
-            (None, Some(_)) => true, // only open-typed outputs could have this type: position not pinned down
-            (None, None) => false,
-        };
+        // acceptable first occurrences: the first output that must have this type, or any output whose
+        // type the statement leaves open and that precedes it
+        let must_ord = ms.first_must_ord.unwrap_or(u64::MAX);
+        let ok = ms.first.map(|f| (*h, *t) == f).unwrap_or(false) || ms.may_positions.iter().any(|(o, p)| *o < must_ord && (*h, *t) == *p);
         if !ok {
             return Err(format!("simplestats type {}: first occurrence reported in block {} txid {}, expected {:?}", label, h, crate::hashes::rhex(t), ms.first.map(|f| (f.0, crate::hashes::rhex(&f.1)))));
         }
